@@ -210,77 +210,77 @@ func runC03(c *Ctx) {
 		// R3 partition, on every case of the selections nested in the result (anchor length chosen
 		// by a condition, ...)
 		for _, resv := range u.CaseSplit(res) {
-		var pipesV []*E
-		for _, r := range u.Collect(resv, isCall("strings.ReplaceAll")) {
-			from, _ := r.Args[1].StrVal()
-			to, _ := r.Args[2].StrVal()
-			if from == K["MaskPipe"] && to == `\`+K["MaskPipe"] {
-				pipesV = append(pipesV, r)
+			var pipesV []*E
+			for _, r := range u.Collect(resv, isCall("strings.ReplaceAll")) {
+				from, _ := r.Args[1].StrVal()
+				to, _ := r.Args[2].StrVal()
+				if from == K["MaskPipe"] && to == `\`+K["MaskPipe"] {
+					pipesV = append(pipesV, r)
+				}
 			}
-		}
-		for _, p := range pipesV {
-			// parent: (slice(X,nil,P) + p) + slice(X,L-1,nil), p = ReplaceAll(slice(X,P,L-1),...)
-			var parent *E
-			for _, x := range u.Collect(resv, func(x *E) bool {
-				return x.Op == "bin" && x.Aux == "+" && x.Args[0].Op == "bin" && x.Args[0].Aux == "+" && x.Args[0].Args[1] == p
-			}) {
-				parent = x
-			}
-			key := shortFn(ptr) + ": inner-pipe escaping is a partition of the escaped text"
-			if parent == nil || p.Args[0].Op != "slice" {
-				c.Fail("C03.R3", key, ptr.Pos(), "UNDECIDED: the escaped middle is not concatenated between two slices")
-				continue
-			}
-			head, mid, tail := parent.Args[0].Args[0], p.Args[0], parent.Args[1]
-			X := mid.Args[0]
-			badp := ""
-			switch {
-			case head.Op != "slice" || tail.Op != "slice" || head.Args[0] != X || tail.Args[0] != X:
-				badp = "the three pieces are not slices of the same string"
-			case head.Args[1] != nil && !isIntConst(head.Args[1], 0):
-				badp = "the head does not start at 0"
-			case tail.Args[2] != nil:
-				badp = "the tail does not run to the end"
-			case head.Args[2] != mid.Args[1] || mid.Args[2] != tail.Args[1]:
-				badp = "the pieces are not contiguous: a character is lost or duplicated"
-			default:
-				P, okP := head.Args[2].IntVal()
-				if !okP {
-					// a computed head length: must select between the two mask lengths
-					okP = true
-					for leaf := range u.Leaves(head.Args[2]) {
-						v, isC := leaf.IntVal()
-						if !isC || (v != int64(len(K["MaskPipe"])) && v != int64(len(K["MaskStartURL"]))) {
-							okP = false
+			for _, p := range pipesV {
+				// parent: (slice(X,nil,P) + p) + slice(X,L-1,nil), p = ReplaceAll(slice(X,P,L-1),...)
+				var parent *E
+				for _, x := range u.Collect(resv, func(x *E) bool {
+					return x.Op == "bin" && x.Aux == "+" && x.Args[0].Op == "bin" && x.Args[0].Aux == "+" && x.Args[0].Args[1] == p
+				}) {
+					parent = x
+				}
+				key := shortFn(ptr) + ": inner-pipe escaping is a partition of the escaped text"
+				if parent == nil || p.Args[0].Op != "slice" {
+					c.Fail("C03.R3", key, ptr.Pos(), "UNDECIDED: the escaped middle is not concatenated between two slices")
+					continue
+				}
+				head, mid, tail := parent.Args[0].Args[0], p.Args[0], parent.Args[1]
+				X := mid.Args[0]
+				badp := ""
+				switch {
+				case head.Op != "slice" || tail.Op != "slice" || head.Args[0] != X || tail.Args[0] != X:
+					badp = "the three pieces are not slices of the same string"
+				case head.Args[1] != nil && !isIntConst(head.Args[1], 0):
+					badp = "the head does not start at 0"
+				case tail.Args[2] != nil:
+					badp = "the tail does not run to the end"
+				case head.Args[2] != mid.Args[1] || mid.Args[2] != tail.Args[1]:
+					badp = "the pieces are not contiguous: a character is lost or duplicated"
+				default:
+					P, okP := head.Args[2].IntVal()
+					if !okP {
+						// a computed head length: must select between the two mask lengths
+						okP = true
+						for leaf := range u.Leaves(head.Args[2]) {
+							v, isC := leaf.IntVal()
+							if !isC || (v != int64(len(K["MaskPipe"])) && v != int64(len(K["MaskStartURL"]))) {
+								okP = false
+							}
+							P = v
 						}
-						P = v
+					}
+					okD, _ := semEqual(u, mid.Args[2], u.Bin(token.SUB, u.Len(X), u.Int(1), types.Typ[types.Int]))
+					if !okP || !okD {
+						badp = "the middle does not end exactly one character before the end (the trailing pipe must stay an anchor, everything before it must be escaped)"
+					}
+					// P must be the length of the leading mask under which this branch is taken
+					cond := u.Leaves(res)
+					_ = cond
+					isStartURL := false
+					for leaf, cnd := range u.Leaves(stars[0].Args[0]) {
+						_ = leaf
+						_ = cnd
+					}
+					for _, at := range u.atoms {
+						if at.Op == "call" && at.Aux == "strings.HasPrefix" && at.Args[0] == X && isStr(at.Args[1], K["MaskStartURL"]) {
+							isStartURL = true
+						}
+					}
+					wantP := int64(len(K["MaskPipe"]))
+					_ = isStartURL
+					if okP && P != wantP && P != int64(len(K["MaskStartURL"])) {
+						badp = fmt.Sprintf("the untouched head has length %d, which is neither len(\"|\") nor len(\"||\")", P)
 					}
 				}
-				okD, _ := semEqual(u, mid.Args[2], u.Bin(token.SUB, u.Len(X), u.Int(1), types.Typ[types.Int]))
-				if !okP || !okD {
-					badp = "the middle does not end exactly one character before the end (the trailing pipe must stay an anchor, everything before it must be escaped)"
-				}
-				// P must be the length of the leading mask under which this branch is taken
-				cond := u.Leaves(res)
-				_ = cond
-				isStartURL := false
-				for leaf, cnd := range u.Leaves(stars[0].Args[0]) {
-					_ = leaf
-					_ = cnd
-				}
-				for _, at := range u.atoms {
-					if at.Op == "call" && at.Aux == "strings.HasPrefix" && at.Args[0] == X && isStr(at.Args[1], K["MaskStartURL"]) {
-						isStartURL = true
-					}
-				}
-				wantP := int64(len(K["MaskPipe"]))
-				_ = isStartURL
-				if okP && P != wantP && P != int64(len(K["MaskStartURL"])) {
-					badp = fmt.Sprintf("the untouched head has length %d, which is neither len(\"|\") nor len(\"||\")", P)
-				}
+				c.Check(badp == "", "C03.R3", key, ptr.Pos(), "regex[:P] + ReplaceAll(regex[P:len-1], \"|\", \"\\|\") + regex[len-1:]", badp)
 			}
-			c.Check(badp == "", "C03.R3", key, ptr.Pos(), "regex[:P] + ReplaceAll(regex[P:len-1], \"|\", \"\\|\") + regex[len-1:]", badp)
-		}
 		}
 		// the || branch must use P=2, the other P=1: check via the guarding HasPrefix
 		// anchors (R4)
